@@ -66,7 +66,7 @@ def conic_sag(r, R, k):
     return r * r / (R * (1 + math.sqrt(1 - (1 + k) * r * r / (R * R))))
 
 
-def gen_config(rng, name, edits=None, vignetting=None):
+def gen_config(rng, name, edits=None, vignetting=None, medium=None, contact_stop=None):
     """returns dict(name, params, spec, scale, edits) ; scale = characteristic path length (for tolerances).
     edits: None = with probability 1/2 the stigmatic prescription is reached through an edit history
     (see add_edit_history)"""
@@ -207,7 +207,26 @@ def gen_config(rng, name, edits=None, vignetting=None):
         scale = nh * d1 + fh + n * s1
     else:
         raise ValueError(name)
-    cfg = {'name': name, 'params': p, 'spec': spec, 'scale': scale, 'image_in_glass': None, 'edits': [], 'vignetting': [0.0, 0.0]}
+    medium_class, contact = 'air', False
+    if medium is None:
+        medium = rng.choice(['air', 'air', 'immersed', 'solid']) if name in MIRROR_ONLY else 'air'
+    if medium == 'solid' and math.isfinite(spec['object_thickness']):
+        medium = 'immersed'            # a plane entrance face is only stigmatic for a collimated beam
+    if medium in ('immersed', 'solid') and name in MIRROR_ONLY:
+        n0 = u(1.3, 4.0)
+        p['n_medium'] = n0
+        if medium == 'immersed':
+            immerse(spec, n0)
+        else:
+            p['t_entrance'] = solidify(rng, spec, n0)
+        scale = scale * n0 + p.get('t_entrance', 0.0) * n0
+        medium_class = medium
+    if contact_stop is None:
+        contact_stop = name in CONTACT_STOP_OK and rng.random() < 0.35
+    if contact_stop and name in CONTACT_STOP_OK:
+        contact = add_contact_stop(spec)
+    cfg = {'name': name, 'params': p, 'spec': spec, 'scale': scale, 'image_in_glass': None, 'edits': [],
+           'vignetting': [0.0, 0.0], 'medium_class': medium_class, 'contact_stop': contact}
     if edits is None:
         edits = rng.random() < 0.5
     if edits:
@@ -232,6 +251,104 @@ def gen_config(rng, name, edits=None, vignetting=None):
 
 
 IMMERSED = ('ellipsoid_lens', 'aplanat_immersed')
+
+# configurations made of mirrors only: they stay stigmatic when the whole system is immersed in a homogeneous
+# medium n0 (object and image space included), and - object at infinity - as a solid catadioptric block
+# (plane entrance face met at normal incidence, mirrors as back surfaces, focus inside the glass)
+MIRROR_ONLY = ('parab', 'parab_fold', 'sphere_cc', 'ellipsoid', 'cassegrain', 'gregorian', 'hyperboloid_far')
+# configurations whose stop is the (conic) first surface AND whose surface bulges away from the incoming light
+# (Rc > 0 for +z travel: the sag lies behind the tangent plane, so no ray has to travel backwards from the plane):
+# the stop may be entered as a separate plane in contact with its vertex (thickness exactly 0)
+CONTACT_STOP_OK = ('ellipsoid_lens', 'hyperboloid_far')
+
+
+def immerse(spec, n0):
+    """the whole system inside the medium n0: object space, every 'air' gap and the image space"""
+    spec['object_material'] = ['ideal', n0, 0.0]
+    for s_ in spec['surfaces']:
+        if s_['material'] == 'air':
+            s_['material'] = ['ideal', n0, 0.0]
+    spec['image_material'] = ['ideal', n0, 0.0]
+
+
+def solidify(rng, spec, n0):
+    """solid catadioptric block: object at infinity in air, plane entrance face into glass n0, the mirrors are
+    the back surfaces, image inside the glass.  returns the distance from the entrance face to the first mirror"""
+    # every later vertex and the image must lie behind the entrance face: the thicknesses of the mirror system
+    # reach at most  min(z) < 0  in front of the first mirror
+    z, zmin = 0.0, 0.0
+    for s_ in spec['surfaces']:
+        z += s_['thickness']
+        zmin = min(zmin, z)
+    t = -zmin * rng.uniform(1.1, 1.5) + rng.uniform(1.0, 10.0)
+    for s_ in spec['surfaces']:
+        if s_['material'] == 'air':
+            s_['material'] = ['ideal', n0, 0.0]
+    spec['surfaces'].insert(0, _std(INF, t, ['ideal', n0, 0.0]))
+    spec['image_material'] = ['ideal', n0, 0.0]
+    return t
+
+
+def add_contact_stop(spec):
+    """the aperture stop entered as a separate plane surface in contact (thickness exactly 0) with the vertex of the
+    conic stop surface; the medium behind the plane is the one in front of the conic"""
+    idx = next((i for i, s_ in enumerate(spec['surfaces']) if s_.get('is_stop')), None)
+    if idx is None or not math.isfinite(spec['surfaces'][idx]['radius']):
+        return False
+    med = spec.get('object_material', 'air')
+    for s_ in spec['surfaces'][:idx]:
+        if s_['material'] != 'mirror':
+            med = s_['material']
+    spec['surfaces'][idx]['is_stop'] = False
+    spec['surfaces'].insert(idx, _std(INF, 0.0, med, None, True))
+    return True
+
+
+def prescription_media(spec):
+    """index of the medium of every segment (object -> s1, s1 -> s2, ..., s_last -> image), taken from the
+    PRESCRIPTION (a mirror keeps the medium it sits in), never read back from the built surfaces"""
+    def idx(m, cur):
+        if m == 'mirror':
+            return cur
+        if m == 'air':
+            return 1.0
+        if isinstance(m, list) and m[0] == 'ideal':
+            return float(m[1])
+        raise ValueError(m)
+    cur = idx(spec.get('object_material', 'air'), 1.0)
+    out = []
+    for s_ in spec['surfaces']:
+        out.append(cur)
+        cur = idx(s_.get('material', 'air'), cur)
+    out.append(cur)
+    return out
+
+
+def build_spec(spec):
+    """lensgen.build plus the object-space and image-space media (public API only: the factory decides what lies
+    behind a mirror)"""
+    import lensgen
+    if 'object_material' not in spec and 'image_material' not in spec:
+        return lensgen.build(spec)
+    from optiland.optic import Optic
+    from optiland.materials import IdealMaterial
+
+    def mat(m):
+        return IdealMaterial(n=m[1], k=m[2]) if isinstance(m, list) else m
+    o = Optic()
+    o.add_surface(index=0, radius=np.inf, thickness=spec['object_thickness'], material=mat(spec.get('object_material', 'air')))
+    for i, s_ in enumerate(spec['surfaces']):
+        kw = {k: s_[k] for k in ('radius', 'conic') if k in s_}
+        o.add_surface(index=i + 1, surface_type='standard', thickness=s_['thickness'], material=mat(s_.get('material', 'air')),
+                      is_stop=bool(s_.get('is_stop')), **kw)
+    o.add_surface(index=len(spec['surfaces']) + 1, material=mat(spec.get('image_material', 'air')))
+    o.set_aperture(spec['aperture'][0], spec['aperture'][1])
+    o.set_field_type(spec['field_type'])
+    for f in spec['fields']:
+        o.add_field(y=f[0], x=f[1], vx=f[2], vy=f[3])
+    for w, prim in spec['wavelengths']:
+        o.add_wavelength(w, is_primary=prim)
+    return o
 
 
 def add_edit_history(rng, cfg):
@@ -268,6 +385,12 @@ def add_edit_history(rng, cfg):
         if isinstance(s1.get('material'), list) and s1['material'][0] == 'ideal' and rng.random() < 0.5:
             s0['material'] = ['ideal', s1['material'][1] + rng.uniform(0.05, 0.3), 0.0]
             edits.append(['index', num, s1['material'][1]])
+            # Optic.set_index only replaces the medium of ONE gap; a mirror that follows keeps the material object it
+            # was built with, so the same glass behind each following mirror has to be re-entered as well
+            for jj in range(j + 1, len(final['surfaces'])):
+                if final['surfaces'][jj]['material'] != 'mirror':
+                    break
+                edits.append(['index', jj + 1, s1['material'][1]])
     if math.isfinite(final['object_thickness']) and rng.random() < 0.5:
         init['object_thickness'] = final['object_thickness'] * rng.uniform(0.7, 1.3)
         edits.append(['thickness', 0, final['object_thickness']])
@@ -293,9 +416,8 @@ def apply_edits(optic, edits):
 
 
 def build(cfg):
-    import lensgen
     warnings.simplefilter('ignore')
-    o = lensgen.build(cfg['spec'])
+    o = build_spec(cfg['spec'])
     apply_edits(o, cfg.get('edits') or [])
     if cfg.get('image_in_glass'):
         img = o.surface_group.surfaces[-1]
@@ -335,7 +457,8 @@ def tolerances(cfg, min_cos=1.0):
     divided by the squared direction cosine of the steepest ray at the image plane (the conditioning of
     `where does this ray cross the plane`)"""
     tol_mm = 4096 * ULP * cfg['scale'] / max(min_cos, 0.05) ** 2
-    return tol_mm, tol_mm / (WL * 1e-3)
+    # the wavefront adds the cancellation  opd - n * (distance back to the reference sphere): 4x the budget
+    return tol_mm, 4 * tol_mm / (WL * 1e-3)
 
 
 def oracle(cfg, rng, n_rays=24, wavefront=True, psf=True, samplings=None):
@@ -368,7 +491,21 @@ def oracle(cfg, rng, n_rays=24, wavefront=True, psf=True, samplings=None):
         if all(math.isfinite(v) for v in r[:3]) and not all(math.isfinite(v) for v in r[3:6]):
             bad.append({'kind': 'image-direction-nan', 'pupil': [px, py], 'record': r})
             break
-    # (2) equal optical paths
+    # (2) equal optical paths; the accumulated path must be the sum of index x segment length with the index of
+    #     the medium the light travels in, taken from the prescription
+    try:
+        media = prescription_media(cfg.get('final_spec') or cfg['spec'])
+    except ValueError:
+        media = None
+    if media is not None and len(media) == len(recs[0]) - 1:
+        for (px, py), r in zip(pts, recs):
+            if not all(math.isfinite(v) for rec_ in r for v in rec_[:3]):
+                continue
+            own = sum(nk * math.dist(r[k][:3], r[k + 1][:3]) for k, nk in enumerate(media))
+            if abs(own - r[-1][7]) > tol_mm:
+                bad.append({'kind': 'optical-path-wrong-medium', 'pupil': [px, py], 'reported': r[-1][7],
+                            'sum_n_times_length': own, 'media_of_prescription': media, 'tol': tol_mm})
+                break
     opl = [r[7] for r in img if math.isfinite(r[7])]
     if opl and max(opl) - min(opl) > tol_mm:
         bad.append({'kind': 'unequal-optical-paths', 'spread': max(opl) - min(opl), 'tol': tol_mm})
@@ -447,10 +584,12 @@ def oracle_virtual(cfg, rng, n_rays=24):
     tol = 4096 * ULP * cfg['scale']
     bad = []
     vals = []
+    km = 2 if cfg.get('contact_stop') else 1          # record of the mirror
+    n0 = prescription_media(cfg.get('final_spec') or cfg['spec'])[0]
     for (px, py), r in zip(pts, recs):
-        x, y, z, L, M, N, _, opl = r[1]
+        x, y, z, L, M, N, _, opl = r[km]
         if not all(math.isfinite(v) for v in (x, y, z, L, M, N, opl)):
-            bad.append({'kind': 'ray-lost', 'pupil': [px, py], 'record': r[1]})
+            bad.append({'kind': 'ray-lost', 'pupil': [px, py], 'record': r[km]})
             break
         k = -e * e
         if (R - (1 + k) * z) * R < 0:
@@ -464,7 +603,11 @@ def oracle_virtual(cfg, rng, n_rays=24):
         if miss > tol * max(1.0, abs(s) / cfg['scale']):
             bad.append({'kind': 'misses-virtual-image-point', 'pupil': [px, py], 'miss': miss, 'tol': tol})
             break
-        vals.append(opl + s)          # s < 0 for a virtual image: path minus distance to the image
+        vals.append(opl + n0 * s)     # s < 0 for a virtual image: optical path minus n x distance to the image
+        own = n0 * math.dist(r[0][:3], r[km][:3])
+        if abs(own - opl) > tol:
+            bad.append({'kind': 'optical-path-wrong-medium', 'pupil': [px, py], 'reported': opl, 'n_times_length': own})
+            break
     if not bad and vals and max(vals) - min(vals) > tol:
         bad.append({'kind': 'unequal-optical-paths', 'spread': max(vals) - min(vals), 'tol': tol})
     return bad
